@@ -29,29 +29,75 @@ class VTime:
     def sleep(self, d):
         self.now = self.now + d
 
-    def advance(self, name, lo=0, hi=None, strict=False):
+    def fresh(self, name, lo=0, hi=None):
         self.n += 1
-        d = self.ctx.real('%s_%d' % (name, self.n), lo, hi)
+        return self.ctx.real('%s_%d' % (name, self.n), lo, hi)
+
+    def require(self, cond):
+        self.ctx.assume(cond)
+
+    def advance(self, name, lo=0, hi=None, strict=False):
+        d = self.fresh(name, lo, hi)
         if strict:
             self.ctx.assume(d.e > 0)
         self.now = self.now + d
         return d
 
 
+class CTime:
+    """The same clock on the plain numbers of a solver model (replay)."""
+    def __init__(self, mv):
+        self.mv = mv
+        self.now = mv.get('t_start', 0.0)
+        self.n = 0
+
+    def time(self):
+        return self.now
+
+    def sleep(self, d):
+        self.now += d
+
+    def fresh(self, name, lo=0, hi=None):
+        self.n += 1
+        return self.mv.get('%s_%d' % (name, self.n), self.mv.get('tick_len', 1.0) if name == 'tick' else 0.0)
+
+    def require(self, cond):
+        pass
+
+    def advance(self, name, lo=0, hi=None, strict=False):
+        d = self.fresh(name, lo, hi)
+        self.now += d
+        return d
+
+
 class Ev:
-    """Stands in for threading.Event: wait() returns at the next tick of the clock thread."""
+    """Stands in for threading.Event as the clock thread drives it (set + clear at every tick): wait()
+    returns True at the next tick, or False after `timeout` when no tick falls inside it.  Tick intervals are
+    arbitrary in (0, tick]; the instant of the pending tick is kept across a timed-out wait."""
     def __init__(self, vt, tick):
         self.vt, self.tick = vt, tick
         self.waits = 0
         self.total_waits = 0
+        self.timeouts = 0
+        self.next_tick = None
 
     def wait(self, timeout=None):
         self.waits += 1
         self.total_waits += 1
         if self.waits > TICK_BOUND:
             raise symx.Abort('tick bound')
-        d = self.vt.advance('tick', 0, None, strict=True)
-        self.vt.ctx.assume(d.e <= self.tick.e)
+        vt = self.vt
+        if self.next_tick is None or not (self.next_tick > vt.now):
+            d = vt.fresh('tick', 0, None)
+            vt.require(d > 0)
+            vt.require(d <= self.tick)
+            self.next_tick = vt.now + d
+        if timeout is not None and self.next_tick - vt.now > timeout:
+            vt.now = vt.now + timeout
+            self.timeouts += 1
+            return False
+        vt.now = self.next_tick
+        self.next_tick = None
         return True
 
     def set(self):
@@ -190,46 +236,23 @@ def clock_worker(args):
 
 
 def replay_clock(plan, mv):
-    """Concrete replay with the model's instants (floats)."""
+    """Concrete replay with the model's instants (floats) on the same event model."""
     saved_ctx = symx.Ctx.cur
     symx.Ctx.cur = None
-
-    class CT:
-        def __init__(self): self.now = mv.get('t_start', 0.0)
-        def time(self): return self.now
-    ct = CT()
-    seq = {'tick': [v for k, v in sorted(((k, v) for k, v in mv.items() if k.startswith('tick_') and k != 'tick_len'), key=lambda kv: int(kv[0].split('_')[1]))],
-           'work': [v for k, v in sorted(((k, v) for k, v in mv.items() if k.startswith('work_')), key=lambda kv: int(kv[0].split('_')[1]))]}
-    order = sorted((int(k.split('_')[1]), k.split('_')[0], v) for k, v in mv.items() if k.split('_')[0] in ('tick', 'work') and k != 'tick_len')
-    it = iter(order)
-
-    class CE:
-        waits = 0
-        def wait(self, timeout=None):
-            CE.waits += 1
-            try:
-                _, kind, v = next(it)
-            except StopIteration:
-                v = mv.get('tick_len', 1.0)
-            ct.now += v
-            return True
-        def set(self): pass
-        def clear(self): pass
+    ct = CTime(mv)
+    tick = mv.get('tick_len', 1.0)
     saved = (clock_mod.time, clock_mod.threading, clock_mod.datetime)
     clock_mod.time, clock_mod.threading, clock_mod.datetime = ct, NoThreads, DT
     try:
         world.configure(())
         c = clock_mod.Clock()
-        c._event = CE()
+        ev = Ev(ct, tick)
+        c._event = ev
         c.start()
         origin, due = ct.now, 0.0
         for i, op in enumerate(plan):
-            try:
-                _, kind, v = next(it)
-            except StopIteration:
-                v = 0.0
-            ct.now += v
-            CE.waits = 0
+            ct.advance('work')
+            ev.waits = 0
             t_call = ct.now
             if op == 'p':
                 class P:
@@ -242,12 +265,15 @@ def replay_clock(plan, mv):
                 continue
             d = mv.get('delay_%d' % i, 0.0) if op == 'd' else 0.0
             due += d
-            c.pause_for(d)
+            try:
+                c.pause_for(d)
+            except symx.Abort:
+                return None
             if ct.now < origin + due - 1e-9:
                 return 'delay #%d returned at %r, due %r' % (i + 1, ct.now, origin + due)
-            if t_call >= origin + due and CE.waits:
-                return 'delay #%d waited %d tick(s) although already late' % (i + 1, CE.waits)
-            if t_call < origin + due and ct.now > origin + due + mv.get('tick_len', 1.0) + 1e-9:
+            if t_call >= origin + due and ev.waits:
+                return 'delay #%d waited %d tick(s) although already late' % (i + 1, ev.waits)
+            if t_call < origin + due and ct.now > origin + due + tick + 1e-9:
                 return 'delay #%d returned %r after due' % (i + 1, ct.now - origin - due)
         return None
     finally:
@@ -461,14 +487,14 @@ def run(tier, seed):
         items.append({'kind': 'vm', 'mode': mode, 'text': text, 'sids': sids, 'due': due, 'tag': tag,
                       'max_paths': 2000 if q else 20000, 'budget_s': 25 if q else 200})
     for delays, works in (([0.3, 0.6], [0, 0]), ([0.3, 0.6], [0.1, 0.7]), ([0.25, 0.25, 0.0], [0, 0.3, 0]), ([1.0], [1.5]), ([0.1, 0.1, 0.1], [0, 0, 0])):
-        for tick in (0.25, 0.1):
+        for tick in (0.25, 0.1, 1.5):
             items.append({'kind': 'sched', 'delays': delays, 'works': works, 'tick': tick, 'preempt': 2 if q else 3,
                           'max_paths': 1500 if q else 60000, 'budget_s': 20 if q else 300})
     results, skipped = report.run_pool(dispatch, items, budget_s=common.tier_budget(tier, 70, 900))
     return report.finish(
         PROP, tier, seed, 'exploration', results, skipped,
         rule='work item = one sequence of up to 3 (quick) / 5 (thorough) statements, each a timed delay, a zero delay or a time-of-day wait, executed by the real Clock with '
-             'symbolic start instant, delay values, work before each statement, tick length and tick phase (each Event.wait returns after an arbitrary amount in (0, tick]); '
+             'symbolic start instant, delay values, work before each statement, tick length (up to 10 s) and tick phase (tick intervals arbitrary in (0, tick]; Event.wait(timeout) returns False when no tick falls inside the time-out); '
              'or one script on the real VM bound to the real Clock with symbolic time registers and symbolic transmission times. z3 shows on every path: never early, '
              'within one tick when not late, immediate return with no extra delay when late, zero delay never blocks, time line restarts after a time-of-day wait',
         assumptions=['time.time, threading and datetime inside bardolph.lib.clock are stubs: the clock thread is represented by Event.wait returning at the next tick instant',
